@@ -65,6 +65,52 @@ type gsched struct {
 	// BgLast: adopted goroutines only run when no harness thread is enabled.
 	BgLast bool
 	locks  map[any]*lockModel
+	// TickBudget > 0 adds the option "advance the virtual clock by TickStep" to every
+	// scheduling decision (so that a timer can fire while threads are still enabled).
+	TickBudget int
+	TickStep   time.Duration
+	poison     bool
+}
+
+// schedPoison unwinds a thread that is abandoned at a gate (see poisonAll).
+type schedPoison struct{}
+
+// poisonAll ends an execution that cannot finish (deadlock among the threads): every
+// parked thread is resumed into a panic that unwinds it, so that deferred clean-up
+// (tickers!) runs and the bubble can end. Results must be recorded before calling it.
+func (s *gsched) poisonAll() {
+	s.mu.Lock()
+	s.poison = true
+	var parked []*gthread
+	for _, th := range s.threads {
+		if th.parked {
+			th.parked = false
+			parked = append(parked, th)
+		}
+	}
+	s.mu.Unlock()
+	for _, th := range parked {
+		th.resume <- struct{}{}
+	}
+	synctest.Wait()
+}
+
+func (s *gsched) checkPoison() {
+	s.mu.Lock()
+	p := s.poison
+	s.mu.Unlock()
+	if p {
+		panic(schedPoison{})
+	}
+}
+
+// adoptCurrent registers the calling goroutine as a named thread without parking it.
+func (s *gsched) adoptCurrent(name string) {
+	th := &gthread{name: name, resume: make(chan struct{}), bg: true}
+	s.mu.Lock()
+	s.byG[goid()] = th
+	s.threads = append(s.threads, th)
+	s.mu.Unlock()
 }
 
 func newSched() *gsched {
@@ -78,7 +124,7 @@ func (s *gsched) stop() { verifhook.Set(nil); verifhook.SetLock(nil); s.active =
 
 func (s *gsched) lockHook(m any, write, acquire bool) {
 	s.mu.Lock()
-	if !s.active {
+	if !s.active || s.poison {
 		s.mu.Unlock()
 		return
 	}
@@ -113,11 +159,12 @@ func (s *gsched) lockHook(m any, write, acquire bool) {
 	th.label, th.parked = "lock", true
 	s.mu.Unlock()
 	<-th.resume // the explorer grants the lock in its model before resuming us
+	s.checkPoison()
 }
 
 func (s *gsched) yield(label string) {
 	s.mu.Lock()
-	if !s.active {
+	if !s.active || s.poison {
 		s.mu.Unlock()
 		return
 	}
@@ -132,6 +179,7 @@ func (s *gsched) yield(label string) {
 	th.label, th.parked = label, true
 	s.mu.Unlock()
 	<-th.resume
+	s.checkPoison()
 }
 
 // Gate is a harness-placed scheduling point for the calling (known) thread.
@@ -148,6 +196,14 @@ func (s *gsched) spawn(name string, f func()) {
 		th.label, th.parked = "start", true
 		s.mu.Unlock()
 		<-th.resume
+		defer func() {
+			if r := recover(); r != nil {
+				if _, ok := r.(schedPoison); !ok {
+					panic(r)
+				}
+			}
+		}()
+		s.checkPoison()
 		f()
 		s.mu.Lock()
 		th.done = true
@@ -191,6 +247,12 @@ func (s *gsched) run(c *mc.Ctx, maxSteps int) (ok bool, why string) {
 			en = bgs
 		}
 		s.mu.Unlock()
+		if len(en) == 0 && s.TickBudget > 0 && !alldone && lockWaiters == 0 {
+			s.TickBudget--
+			s.Trace = append(s.Trace, "tick")
+			time.Sleep(s.TickStep)
+			continue
+		}
 		if len(en) == 0 {
 			if alldone {
 				s.mu.Lock()
@@ -218,12 +280,26 @@ func (s *gsched) run(c *mc.Ctx, maxSteps int) (ok bool, why string) {
 			}
 		}
 		ch := 0
-		if len(en) > 1 {
+		nopt := len(en)
+		if s.TickBudget > 0 {
+			nopt++ // last option: let the clock advance instead
+		}
+		if nopt > 1 {
 			names := make([]string, len(en))
 			for i, th := range en {
 				names[i] = th.name
 			}
-			ch = c.ChooseCost(len(en), "sched:"+strings.Join(names, ","), cost)
+			if cost == 0 && s.TickBudget > 0 {
+				cost = 1
+			}
+			ch = c.ChooseCost(nopt, "sched:"+strings.Join(names, ","), cost)
+		}
+		if ch == len(en) {
+			s.TickBudget--
+			s.Trace = append(s.Trace, "tick")
+			s.last = nil
+			time.Sleep(s.TickStep)
+			continue
 		}
 		th := en[ch]
 		s.Trace = append(s.Trace, th.name+"@"+th.label)
